@@ -9,6 +9,14 @@ uint16_t vp_nondet_u16(void) { uint16_t vp_nd_value = nondet_u16(); return vp_nd
 uint8_t vp_nondet_u8(void) { uint8_t vp_nd_value = nondet_u8(); return vp_nd_value; }
 _Bool vp_nondet_bool(void) { uint8_t vp_nd_value = nondet_u8(); __CPROVER_assume(vp_nd_value <= 1); return vp_nd_value; }
 void vp_observe(uint64_t v) { (void)v; }
+#ifndef VP_LO
+#define VP_LO 0
+#endif
+#ifndef VP_HI
+#define VP_HI 0xffffffffffffffffULL
+#endif
+uint64_t vp_range_lo(void) { return VP_LO; }
+uint64_t vp_range_hi(void) { return VP_HI; }
 #endif
 #ifdef __CPROVER__
 #define VP_MULTAB 8
@@ -33,7 +41,13 @@ static uint64_t vp_da[VP_MULTAB], vp_db[VP_MULTAB], vp_dq[VP_MULTAB], vp_dr[VP_M
 static unsigned vp_dn;
 static void vp_divrem64(uint64_t a, uint64_t b, uint64_t *q, uint64_t *r)
 {
+#ifdef VP_DIV_BY_IDENTITY
   uint64_t qq = nondet_u64(), rr = nondet_u64();
+#else
+  /* default: ordinary division (constant-folds for concrete operands); the identity below is
+     then a redundant lemma */
+  uint64_t qq = a / b, rr = a % b;
+#endif
   for (unsigned j = 0; j < VP_MULTAB; ++j)
     if (j < vp_dn && a == vp_da[j] && b == vp_db[j])
       __CPROVER_assume(qq == vp_dq[j] && rr == vp_dr[j]);
@@ -48,6 +62,32 @@ uint64_t vp_urem64(uint64_t a, uint64_t b) { uint64_t q, r; vp_divrem64(a, b, &q
 vp_u128 vp_mul64x64(uint64_t a, uint64_t b) { return (vp_u128)a * (vp_u128)b; }
 uint64_t vp_udiv64(uint64_t a, uint64_t b) { return a / b; }
 uint64_t vp_urem64(uint64_t a, uint64_t b) { return a % b; }
+#endif
+#ifdef __CPROVER__
+/* rank table for the pointer order of distinct objects (C09): registered by the harness */
+#define VP_NRANK 24
+static const void *vp_rk_obj[VP_NRANK];
+static uint64_t vp_rk_val[VP_NRANK];
+static unsigned vp_rk_n;
+void vp_rank_register(void *p, uint64_t rank)
+{
+  if (vp_rk_n < VP_NRANK) { vp_rk_obj[vp_rk_n] = p; vp_rk_val[vp_rk_n] = rank; vp_rk_n++; }
+}
+uint64_t vp_obj_rank(const void *p)
+{
+  for (unsigned i = 0; i < VP_NRANK; ++i)
+    if (i < vp_rk_n && __CPROVER_same_object(p, vp_rk_obj[i]))
+      return vp_rk_val[i];
+  return 1000 + (VP_PTR2INT(p) >> 40);     /* unregistered objects: after the pool, by object number */
+}
+#ifndef VP_NATIVE_RANKS
+#define VP_NATIVE_RANKS 0
+#endif
+uint64_t vp_native_rank(uint32_t i)
+{
+  static const uint64_t r[] = { VP_NATIVE_RANKS };
+  return i < sizeof r / sizeof r[0] ? r[i] : 100 + i;
+}
 #endif
 _Bool vp_exc_pending(void) { return __vp_exc.pending != 0; }
 void vp_exc_clear(void)
